@@ -46,7 +46,9 @@
    Ghost state: reg / wake (phase tag in which a task registered / for which a wake-up was
    issued), ph (phases entered), gid (incarnation number of the task an object is bound to:
    fresh per create / rebind), the event log (events are keyed by incarnation).
-   Not modelled (see notes/design/C01.md): yield_to / next_thrd, priorities and queue selection
+   yield_to / next_thrd: the act YieldTo is a plain yield HERE (fragment); the hand-over is in
+   Model/SchedY.v (tstepY wraps tstep).
+   Not modelled (see notes/design/C01.md): priorities and queue selection
    (subsumed by the oracle), state_ex (constantly `signaled` in this fragment), timed
    suspension, abort_all_suspended_threads at shutdown, counted references held by user code
    (pika::thread, the id returned by register_thread: they only delay recycling). *)
@@ -65,7 +67,12 @@ Inductive act :=
   | Suspend                                (* this_thread::suspend: do_yield(suspended) *)
   | Register                               (* link a waiter entry under the primitive's lock *)
   | Spawn (b : list act) (run_now : bool)  (* create_work / create_thread *)
-  | Resume (u : nat).                      (* pop u's entry (if any) and agent.resume() *)
+  | Resume (u : nat)                       (* pop u's entry (if any) and agent.resume() *)
+  | YieldTo (u : nat).                     (* this_thread::yield_to(u): do_yield(pending) with next
+                                              thread id u.  In THIS step function (the fragment
+                                              without yield_to) the hint is ignored: a plain yield;
+                                              the hand-over is modelled by tstepY (Model/SchedY.v),
+                                              which coincides with tstep on programs without YieldTo *)
 
 Inductive body :=
   | UserBody (l : list act)
@@ -265,6 +272,7 @@ Definition run_act (g : G) (h : nat) (me t : nat) (orig : word) : G * pc :=
       | Register => (set_reg g1 t (Some (tag (tw_of g t))), WRun t orig SNone)
       | Spawn b now => ((if now then new_task g1 (UserBody b) h else stage g1 (UserBody b)), WRun t orig SNone)
       | Resume u => (g1, WRun t orig (SIssue u))
+      | YieldTo _ => (g1, WStoreL t orig st_pending)
       end
   end.
 
